@@ -104,7 +104,7 @@ CHECKS = {
          "DESIGN.md §3 C12"),
  "C16": ("exploration",
          "bounded-exhaustive enumeration of pre-upgrade stores in the previous format, whole upgrade handler executed",
-         "Product alphabet of pre-upgrade states written in the previous store format (v2 pools and traces under the old prefixes, legacy x/params subspaces, module versions 2): pool layouts of the hard-coded owner (subsets and orders of Validators / Advisors / other pool; currently locked in {0, sum-1, sum, sum+1, 2*sum}; with and without sent/withdrawn history), a second owner's pool of the removed type, vesting type present/absent, the four hard-coded accounts in 5 kinds, 8 legacy minter (two with periods that ended before the upgrade) and 4 legacy distributor parameter sets (344 cases quick, ~2 400 thorough); each case runs the whole registered v1.2.0 handler through UpgradeKeeper.ApplyUpgrade. Total locked and module balance unchanged, every pool's sent/withdrawn unchanged, solvency and registered invariants, split all-or-nothing, shifted accounts keep amounts, other accounts byte-identical, traces preserved, migrated minter parameters validate and give the same exact-rational schedule on a time grid, distributor parameters byte-equal. Owner sets include pools already named like the pools the split creates (matched as a multiset).",
+         "Product alphabet of pre-upgrade states written in the previous store format (v2 pools and traces under the old prefixes, legacy x/params subspaces, module versions 2): pool layouts of the hard-coded owner (subsets and orders of Validators / Advisors / other pool; currently locked in {0, sum-1, sum, sum+1, 2*sum}; with and without sent/withdrawn history), a second owner's pool of the removed type, vesting type present/absent, the four hard-coded accounts in 5 kinds, 8 legacy minter (two with periods that ended before the upgrade) and 5 legacy distributor (also stored in the version-1 percentage format with the module at version 1) parameter sets (344 cases quick, ~2 400 thorough); each case runs the whole registered v1.2.0 handler through UpgradeKeeper.ApplyUpgrade. Total locked and module balance unchanged, every pool's sent/withdrawn unchanged, solvency and registered invariants, split all-or-nothing, shifted accounts keep amounts, other accounts byte-identical, traces preserved, migrated minter parameters validate and give the same exact-rational schedule on a time grid, distributor parameters byte-equal. Owner sets include pools already named like the pools the split creates (matched as a multiset).",
          "In-process on a store branch of an application whose genesis has no ICA state.",
          "DESIGN.md §3 C16"),
 }
